@@ -315,9 +315,16 @@ pub const FAULT_KINDS: &[io::ErrorKind] = &[
     io::ErrorKind::Other,
 ];
 
+thread_local! {
+    pub static IN_GUARD: std::cell::Cell<u32> = const { std::cell::Cell::new(0) };
+}
+
 /// Run `f`, turning a panic into data.
 pub fn guarded<T>(f: impl FnOnce() -> T) -> Result<T, String> {
-    match std::panic::catch_unwind(std::panic::AssertUnwindSafe(f)) {
+    IN_GUARD.with(|g| g.set(g.get() + 1));
+    let r = std::panic::catch_unwind(std::panic::AssertUnwindSafe(f));
+    IN_GUARD.with(|g| g.set(g.get() - 1));
+    match r {
         Ok(v) => Ok(v),
         Err(e) => {
             let msg = if let Some(s) = e.downcast_ref::<&str>() {
